@@ -247,6 +247,10 @@ func checkC02(e *core.Env) {
 				sc.CallTimeout = pick(rr, time.Hour, 30*time.Hour) // a caller with a distant deadline
 			}
 			sc.ViaCtx = rr.Intn(6) == 0 // handler metadata through grpc.SetTrailer(ctx, ...) and friends
+			if rr.Intn(3) == 0 {
+				// callers that ask for the reply's metadata through call options: the status is the same
+				sc.NHdrOpt, sc.NTrlOpt = rr.Intn(2), rr.Intn(2)
+			}
 			e.Note("%s %s msg=%q", c.Name, sc.Shape(), trunc(sc.Ret.Msg, 40))
 			ref, ok, _ := execScript(cs.ref, sc, nil)
 			if !ok {
